@@ -22,15 +22,19 @@ META = {
 
 
 def _key(b):
-    """Class of a failing record: the failed requirements, attributed to a root cause where the input class explains them."""
+    """Class of a failing record: the failed requirements plus the input classes that matter (sign of the offset, named zone,
+    later call of a history, end-to-end carrier)."""
     r = b["rec"]
-    why = set(b["why"])
-    if r["y"] < 1000 and "invalid-string" in why:
-        return "DateString|year<1000"                       # everything else in the record follows from the malformed string
-    if r["off"] < 0 and r["off"] % 60 != 0 and why <= {"instant", "offset"}:
-        return "DateTime|negative-offset-with-minutes"
-    sign = "negative-offset" if r["off"] < 0 else "non-negative-offset"
-    return "%s|%s" % (",".join(sorted(why)), sign)
+    cls = ["negative-offset" if r["off"] < 0 else "non-negative-offset"]
+    if r["off"] % 60 != 0:
+        cls.append("offset-with-minutes")
+    if r["zn"]:
+        cls.append("named-zone")
+    if r["pos"] > 1:
+        cls.append("later-call-of-history")
+    if r["kind"] == "e2e":
+        cls.append("attachment")
+    return "%s|%s" % (",".join(sorted(b["why"])), "+".join(cls))
 
 
 def run(ctx):
@@ -40,7 +44,10 @@ def run(ctx):
     try:
         jobs = [("boundary", "LexDate_gen.cfg", dict(Seed=str(ctx.seed)))]
         if not ctx.quick:
-            jobs[0] = ("boundary", "LexDate_gen.cfg", dict(Seed=str(ctx.seed), EdgeTods="TRUE", FullYears="{1900, 2000, 2023, 2024}"))
+            jobs[0] = ("boundary", "LexDate_gen.cfg", dict(Seed=str(ctx.seed), EdgeTods="TRUE", FullYears="{1900, 2000, 2023, 2024}",
+                                                           E2EYears="{0, 1, 999, 1000, 2024, 9999}", HistLen="3"))
+            jobs.append(("histories20", "LexDate_gen.cfg", dict(Seed=str(ctx.seed), YearLo="1", YearHi="0", ExtraYears="{}", AllOffs="FALSE",
+                                                                 HistLen="2", HistN="20")))
             jobs += [("years-%d" % lo, "LexDate_thorough.cfg", dict(Seed=str(ctx.seed), YearLo=str(lo), YearHi=str(lo + 499)))
                      for lo in range(0, 10000, 500)]
 
@@ -54,33 +61,47 @@ def run(ctx):
             if summ["cases"] != n:
                 raise vlib.HarnessError("lex c14 consumed %d of %d cases" % (summ["cases"], n))
             jres, bad, _ = lf.judge("LexDateTrace", "LexTrace.cfg", rec)
-            if jres.distinct != n + 1:
-                raise vlib.HarnessError("LexDateTrace stepped through %d of %d records" % (jres.distinct - 1, n))
-            smp = vlib.read_ndjson(rec)[:2] if name == "boundary" else []
+            if jres.distinct != summ["records"] + 1:
+                raise vlib.HarnessError("LexDateTrace stepped through %d of %d records" % (jres.distinct - 1, summ["records"]))
+            smp = []
+            if name == "boundary":
+                rows = vlib.read_ndjson(rec)
+                smp = rows[:1] + [r for r in rows if r["kind"] == "e2e"][:1] + [r for r in rows if r["pos"] == 2][:1]
             os.unlink(cases)
             os.unlink(rec)
             return name, gres, jres, n, summ, bad, smp
 
         classes = lf.Classes()
-        tot = dict(cases=0, distinct=0)
+        tot = dict(cases=0, distinct=0, records=0, e2e=0, histories=0)
         for name, gres, jres, n, summ, bad, smp in lf.parallel(one, jobs):
             ev.tlc(gres, "LexDate:" + name)
             ev.tlc(jres, "LexDateTrace:" + name)
             tot["cases"] += n
             tot["distinct"] += summ["distinct"]
+            tot["records"] += summ["records"]
+            tot["e2e"] += summ["e2e"]
+            tot["histories"] += summ["histories"]
             for s in smp:
                 ev.sample(s)
             for b in bad:
                 r = b["rec"]
                 inp = "%04d-%02d-%02d %02d:%02d:%02d %+03d:%02d" % (r["y"], r["mo"], r["d"], r["h"], r["mi"], r["s"],
                                                                      (abs(r["off"]) // 60) * (-1 if r["off"] < 0 else 1), abs(r["off"]) % 60)
-                classes.add(_key(b), "%s: time %s written as %r, strict DateTime -> %s" % (
-                    ",".join(sorted(b["why"])), inp, lf.b2s(r["str"]),
+                if r["zn"]:
+                    inp += " zone %r" % r["zn"]
+                if r["hid"]:
+                    inp += " (call %d of a history in one process)" % r["pos"]
+                classes.add(_key(b), "%s: time %s %s, read back -> %s" % (
+                    ",".join(sorted(b["why"])), inp,
+                    ("stored as attachment modification date (%s)" % r["msg"]) if r["kind"] == "e2e" else "written as %r" % lf.b2s(r["str"]),
                     ("%04d-%02d-%02d %02d:%02d:%02d offset %ds" % (r["py"], r["pmo"], r["pd"], r["ph"], r["pmi"], r["ps"], r["poff"])) if r["ok"] else "rejected"),
                     b, short=inp)
         classes.report(ctx)
-        ev.cov(evaluations=tot["cases"], distinct_nontrivial=tot["distinct"], traces_validated_against_impl=tot["cases"],
-               rule="every (year, day, offset, time of day) state of LexDate.tla (jobs: %s) is one case run through the real DateString and strict "
+        ev.cov(evaluations=tot["cases"], distinct_nontrivial=tot["distinct"], traces_validated_against_impl=tot["records"],
+               e2e_records=tot["e2e"], histories=tot["histories"],
+               rule="every state of LexDate.tla (jobs: %s) - a (year, day, offset, time of day, zone name) call, a boundary instant in an offset, or a history of "
+                    "calls made in one fresh process - is run through the real DateString and strict DateTime (marked calls also as attachment modification "
+                    "date through a written PDF and ListAttachments) "
                     "DateTime and judged by TLC (LexDateTrace!Fails); distinct = distinct (year, day, offset) triples (every case has a non-trivial "
                     "seeded time of day or a day-boundary time)" % ", ".join(j[0] for j in jobs),
                exhaustive=not ctx.quick)
